@@ -126,7 +126,7 @@ def check(ctx):
                     "TLC evaluation of FileTrace guards"]
     ctx.assumptions += ["updates are in-place single-syscall writes (truncate, append, pwrite); rename-over is outside the property's wording",
                         "the harness waits for the watcher's reload (observation point) after every step: the trace is quiescent between steps",
-                        "'eventually' = a reload within 5 s of a changed file"]
+                        "'eventually' = a reload within 20 s of a changed file (2 s once a process has missed one)"]
     return runner.finish(
         ctx,
         rule="all lease files of <= 3 lines over {blank, comment, ok(m,a) x 2x2, whitespace-only, 1 field, 3 fields, bad MAC, bad IP, wrong family} for both "
